@@ -22,6 +22,8 @@ import (
 // are read by the multiConsumer goroutines of the join/union node: the write order only biases the
 // arrival interleaving), then `task run`: start, write, Drain (parents end, Finish flushes), Wait, read sink.
 type taskRun struct {
+	win    int64    // joinb: window period = every (ns)
+	inputs []string // joinb: `task bin` lines: the batches that entered the join, parent by parent
 	kind   string
 	cfg    joinCfg
 	dims   []string
@@ -49,7 +51,12 @@ func (t *taskRun) script() string {
 		gb = ".groupBy(" + strings.Join(ds, ",") + ")"
 	}
 	for i := 0; i < t.cfg.n; i++ {
-		fmt.Fprintf(&b, "var p%d = stream|from().measurement('m%d')%s\n", i, i, gb)
+		if t.kind == "joinb" {
+			// batch join: both parents window the stream; a sink in front of the join records what enters it
+			fmt.Fprintf(&b, "var p%d = stream|from().measurement('m%d')%s|window().period(%du).every(%du).align()@bsink()\n", i, i, gb, t.win/1000, t.win/1000)
+		} else {
+			fmt.Fprintf(&b, "var p%d = stream|from().measurement('m%d')%s\n", i, i, gb)
+		}
 	}
 	if t.kind == "union" {
 		fmt.Fprintf(&b, "p0|union(%s)", others(t.cfg.n))
@@ -63,7 +70,11 @@ func (t *taskRun) script() string {
 	s = s[strings.Index(s, "p0|join("):]
 	b.WriteString(s)
 	fmt.Fprintf(&b, "\n  .tolerance(%du)", t.cfg.tol/1000)
-	b.WriteString("\n  @sink()\n")
+	if t.kind == "joinb" {
+		b.WriteString("\n  @bsink()\n")
+	} else {
+		b.WriteString("\n  @sink()\n")
+	}
 	return b.String()
 }
 
@@ -71,7 +82,7 @@ func (r *runner) taskOp(t []string) string {
 	switch t[1] {
 	case "new":
 		m := kv(t[2:])
-		tr := &taskRun{kind: m["kind"], cfg: parseJoinCfg(t[2:]), rename: un(m["rename"])}
+		tr := &taskRun{kind: m["kind"], cfg: parseJoinCfg(t[2:]), rename: un(m["rename"]), win: atoi(m["win"])}
 		for _, d := range splitList(m["dims"]) {
 			tr.dims = append(tr.dims, un(d))
 		}
@@ -148,6 +159,9 @@ func (t *taskRun) run() string {
 			keys = append(keys, k)
 		}
 	}
+	if t.kind == "joinb" {
+		return t.batchResult(tm, keys)
+	}
 	if len(keys) > 1 {
 		return "err:sink" + strconv.Itoa(len(keys))
 	}
@@ -165,10 +179,68 @@ func (t *taskRun) run() string {
 	return strings.Join(append([]string{strconv.Itoa(len(es))}, es...), " ")
 }
 
+// batchResult: the sinks are named bsink<nodeID>; node IDs grow in script order, so the first n sinks (by ID)
+// are the parents' windows and the last one is the join's output. A sink that never received a batch has no key.
+func (t *taskRun) batchResult(tm *kit.TM, keys []string) string {
+	type sk struct {
+		id  int
+		key string
+	}
+	var sks []sk
+	for _, k := range keys {
+		i := strings.LastIndex(k, "bsink")
+		if i < 0 {
+			return "err:sinkname"
+		}
+		id, _ := strconv.Atoi(k[i+5:])
+		sks = append(sks, sk{id, k})
+	}
+	sort.Slice(sks, func(a, b int) bool { return sks[a].id < sks[b].id })
+	// node IDs (stream source = 0): parent i's from/window/bsink = 3i+1..3i+3, the join = 3n+1 (+1 for its as()/UDF bookkeeping), the output sink = 3n+3
+	t.inputs = nil
+	var es []string
+	for _, s := range sks {
+		switch {
+		case s.id > 3*t.cfg.n: // the only sink behind the join
+			for _, m := range tm.Rec.Get(s.key) {
+				if _, ok := m.(edge.BufferedBatchMessage); ok {
+					es = append(es, renderMsg(m))
+				}
+			}
+		case s.id%3 == 0 && s.id/3 >= 1 && s.id/3 <= t.cfg.n:
+			src := s.id/3 - 1
+			for _, m := range tm.Rec.Get(s.key) {
+				b, ok := m.(edge.BufferedBatchMessage)
+				if !ok {
+					continue
+				}
+				var ps []string
+				for _, p := range b.Points() {
+					ps = append(ps, fmt.Sprintf("%d^%s", p.Time().UnixNano(), kit.FieldsStr(p.Fields())))
+				}
+				pts := "-"
+				if len(ps) > 0 {
+					pts = strings.Join(ps, "!")
+				}
+				bn := "0"
+				if b.Dimensions().ByName {
+					bn = "1"
+				}
+				t.inputs = append(t.inputs, fmt.Sprintf("task bin %d %d name=%s byname=%s tags=%s pts=%s grp=%s", src, b.Time().UnixNano(),
+					kit.Esc(b.Name()), bn, kit.TagsStr(b.Tags()), pts, kit.Esc(string(b.GroupID()))))
+			}
+		default:
+			return "err:sinkid" + strconv.Itoa(s.id)
+		}
+	}
+	sort.Strings(es)
+	return strings.Join(append([]string{strconv.Itoa(len(es))}, es...), " ")
+}
+
 // ---- generator ----
 
 func genTask(r *kit.Rand) []string {
-	kind := kit.Pick(r, []string{"join", "join", "union"})
+	kind := kit.Pick(r, []string{"join", "join", "union", "joinb"})
 	n := kit.Pick(r, []int{2, 2, 3})
 	ms := int64(1000000)
 	tol := kit.Pick(r, []int64{0, 0, 10 * ms, 1000 * ms})
@@ -195,8 +267,16 @@ func genTask(r *kit.Rand) []string {
 		lagging = r.Intn(n)
 	}
 	t := int64(1700000000) * 1000 * ms
-	for slot := 0; slot < 3+r.Intn(8); slot++ {
-		t += int64(kit.Pick(r, []int{0, 1, 1, 2, 5, 30})) * unit
+	slots := 3 + r.Intn(8)
+	if kind == "joinb" {
+		slots = 8 + r.Intn(12) // long enough to close several windows
+	}
+	for slot := 0; slot < slots; slot++ {
+		if kind == "joinb" {
+			t += int64(kit.Pick(r, []int{0, 2, 3, 5, 8, 12})) * unit
+		} else {
+			t += int64(kit.Pick(r, []int{0, 1, 1, 2, 5, 30})) * unit
+		}
 		for _, h := range hosts {
 			for i := 0; i < n; i++ {
 				cnt := kit.Pick(r, []int{0, 1, 1, 1, 2})
@@ -224,6 +304,9 @@ func genTask(r *kit.Rand) []string {
 		lens[i] = len(seqs[i])
 	}
 	cfg := fmt.Sprintf("kind=%s n=%d tol=%d names=%s fill=%s dims=%s", kind, n, tol, strings.Join(names, ","), fill, dims)
+	if kind == "joinb" {
+		cfg += fmt.Sprintf(" edge=batch win=%d", 10*unit)
+	}
 	if kind == "union" {
 		cfg = fmt.Sprintf("kind=union n=%d tol=0 names=%s dims=%s rename=%s", n, strings.Join(names, ","), dims, kit.Pick(r, []string{"%", "%", "u"}))
 	}
